@@ -7,6 +7,7 @@ mod gen;
 mod pki;
 mod p_backoff;
 mod p_codec;
+mod p_crypto;
 
 use common::*;
 
@@ -81,7 +82,8 @@ fn main() {
     let mut rep = Report::new(&args);
     // every workload module offers dispatch(prop, args, rep) -> handled?
     let handled = p_codec::dispatch(&args, &mut rep)
-        || p_backoff::dispatch(&args, &mut rep);
+        || p_backoff::dispatch(&args, &mut rep)
+        || p_crypto::dispatch(&args, &mut rep);
     if !handled {
         eprintln!("unknown property {}", args.prop);
         std::process::exit(2);
